@@ -27,14 +27,19 @@ PINS = {
     "C10": [("retrieve_validate_block", RETRIEVE, "Retrieve", "_validate_block"),
             ("retrieve_try_to_validate_prefix", RETRIEVE, "Retrieve", "_try_to_validate_prefix"),
             ("servermap_got_signature_one_share", SERVERMAP, "ServermapUpdater", "_got_signature_one_share"),
-            ("servermap_try_to_set_pubkey", SERVERMAP, "ServermapUpdater", "_try_to_set_pubkey")],
+            ("servermap_try_to_set_pubkey", SERVERMAP, "ServermapUpdater", "_try_to_set_pubkey"),
+            ("servermap_got_results", SERVERMAP, "ServermapUpdater", "_got_results"),
+            ("servermap_got_corrupt_share", SERVERMAP, "ServermapUpdater", "_got_corrupt_share")],
     "C11": [("servermap_highest_seqnum", SERVERMAP, "ServerMap", "highest_seqnum"),
             ("servermap_shares_available", SERVERMAP, "ServerMap", "shares_available"),
             ("servermap_recoverable_versions", SERVERMAP, "ServerMap", "recoverable_versions"),
             ("servermap_unrecoverable_versions", SERVERMAP, "ServerMap", "unrecoverable_versions"),
             ("servermap_best_recoverable_version", SERVERMAP, "ServerMap", "best_recoverable_version"),
             ("servermap_unrecoverable_newer_versions", SERVERMAP, "ServerMap", "unrecoverable_newer_versions"),
-            ("servermap_check_for_done", SERVERMAP, "ServermapUpdater", "_check_for_done")],
+            ("servermap_check_for_done", SERVERMAP, "ServermapUpdater", "_check_for_done"),
+            ("servermap_got_results", SERVERMAP, "ServermapUpdater", "_got_results"),
+            ("publish_publish", PUBLISH, "Publish", "publish"),
+            ("publish_update", PUBLISH, "Publish", "update")],
     "C12": [("server_slot_testv_and_readv_and_writev", SERVER, "StorageServer", "slot_testv_and_readv_and_writev"),
             ("server_evaluate_test_vectors", SERVER, "StorageServer", "_evaluate_test_vectors"),
             ("server_evaluate_read_vectors", SERVER, "StorageServer", "_evaluate_read_vectors"),
